@@ -32,7 +32,7 @@ type replayT struct {
 }
 
 var allOracles = map[string]func(*Exec) []verdict{
-	"C01": oracleC01, "C02": oracleC02, "C03": oracleC03, "C15": oracleC15, "C04": oracleC04,
+	"C01": oracleC01, "C02": oracleC02, "C03": oracleC03, "C15": oracleC15, "C04": oracleC04, "C10": oracleC10, "C05": oracleC05,
 }
 
 func main() {
@@ -60,7 +60,7 @@ func main() {
 	add := func(cfg *Config, bound int, maxExec int64, oracles ...string) {
 		c := *cfg
 		c.Bound = bound
-		j := job{cfg: &c, maxExec: maxExec, big: bound > 0}
+		j := job{cfg: &c, maxExec: maxExec, big: bound > 0 || c.Agent}
 		for _, o := range oracles {
 			j.oracles = append(j.oracles, allOracles[o])
 		}
@@ -90,14 +90,23 @@ func main() {
 			capPB = 0
 		}
 		for i, c := range sharp() {
+			// the agent's arrangement: unbuffered done channel consumed by a status-writer thread; steps print
+			cs := *c
+			cs.DoneSync, cs.OutBytes = true, 10
+			if thorough || i < 4 {
+				add(&cs, pb, capPB, sub)
+			}
+			// buffered done channel, silent steps
 			add(c, pb, capPB, sub)
 			if thorough && i < 6 {
-				add(c, 2, 3000000, sub)
+				add(&cs, 2, 3000000, sub)
 			}
-			// the public API form Schedule(ctx, g, nil), as the repository's own tests call it (secondary)
+			// the public API form Schedule(ctx, g, nil), as the repository's own tests call it
 			cn := *c
-			cn.DoneNil = true
-			add(&cn, pb, capPB, sub)
+			cn.DoneNil, cn.OutBytes = true, 10
+			if thorough || i < 4 {
+				add(&cn, pb, capPB, sub)
+			}
 		}
 		res.Bounds["preemption_bound_sharp_list"] = map[bool]int{false: 1, true: 2}[thorough]
 		res.Bounds["np_complete_n_le"] = 3
@@ -107,6 +116,13 @@ func main() {
 	case "C04":
 		c04family(thorough, add)
 		famDesc = append(famDesc, "programs on <=2 steps (3 thorough) x outcome scripts x every subset of {onSuccess,onFailure,onCancel,onExit} scripted ok/fail x {no stop, stop at every explored instant}")
+	case "C05":
+		c05family(thorough, add)
+		famDesc = append(famDesc, "agent-level: {single step, chain of 2, two parallel, retrying step + dependent} x {step ends by itself, ends only on signal, ignores SIGTERM} + signalOnStop, repeating and always-failing-retry steps; stop through the /stop path (a.signal(SIGTERM,true)) and through a.Signal(SIGTERM) at every explored instant; PB(1) on 3 programs; DAG timeout 1 s with hanging steps; maxCleanUpTime 10 s (virtual)")
+	case "C10":
+		n := c10family(thorough, add)
+		res.Counters["recorded_tables"] = int64(n)
+		famDesc = append(famDesc, "programs on <=3 steps (4 thorough) x scripts {ok, fail, unmet} x every recorded status vector over {not started, running, failed, canceled, finished, skipped} that a finished, stopped or crashed run can leave (consistency filter), through the persisted JSON form; the retry runs with all steps succeeding")
 	default:
 		fmt.Fprintln(os.Stderr, "e1: unknown -sub", sub)
 		os.Exit(2)
